@@ -226,6 +226,14 @@ impl Debugger {
         Ok(None)
     }
 
+    /// Canonical frame address of the frame the on-focus thread executes in.
+    fn current_cfa(&self) -> Result<RelocatedAddress, Error> {
+        let location = self.ecx().location();
+        self.debugee
+            .debug_info(location.pc)?
+            .get_cfa(&self.debugee, &ExplorationContext::new(location, 0))
+    }
+
     /// Move to higher stack frame.
     ///
     /// **! change exploration context**
@@ -239,11 +247,25 @@ impl Debugger {
             let stop_reason = if brkpt_is_set {
                 self.continue_execution()?
             } else {
+                let start_cfa =
+                    debug_info.get_cfa(&self.debugee, &ExplorationContext::new(location, 0))?;
                 let brkpt =
                     Breakpoint::new_temporary(debug_info.pathname(), ret_addr, location.pid);
                 self.breakpoints.add_and_enable(brkpt)?;
                 // remove the temporary breakpoint even if continue fails
-                let continue_result = self.continue_execution();
+                let continue_result = loop {
+                    let result = self.continue_execution();
+                    // with recursion the same return address is reached first by deeper
+                    // activations: the frame is left only when the stack is above its CFA
+                    if let Ok(StopReason::Breakpoint(pid, addr)) = result
+                        && pid == location.pid
+                        && addr == ret_addr
+                        && matches!(self.current_cfa(), Ok(cfa) if cfa <= start_cfa)
+                    {
+                        continue;
+                    }
+                    break result;
+                };
                 self.remove_breakpoint(Address::Relocated(ret_addr))?;
                 continue_result?
             };
